@@ -72,6 +72,9 @@ def cases(tier, seed):
     for shape in ([['a'], ['b']], [[], ['a']], [['a', 'b']], [['a'], ['a', 'b'], ['c']]):
         for k in (2, 3, 6):
             out.append(dict(kind='div-int-enumerated', shape=shape, k=k))
+    # ... and WITHOUT the rational snapping of float constants: (P / k) * k - P is the zero polynomial
+    for k in (3, 7, 49, 6):
+        out.append(dict(kind='div-int-exact', k=k))
     # fork mode on real-valued coefficients
     m = 120 if tier == 'quick' else 800
     for i in range(m):
@@ -257,6 +260,17 @@ def run_case(desc, V):
                 if len(d) != len(coefs):
                     claims.append(Fail(f'{tag}/int:terms[{coefs}]', f'{coefs}/{desc["k"]}: result has monomials {sorted(d)}'))
         claims.append(Note('nontrivial', ''))
+        return claims
+    if kind == 'div-int-exact':
+        k = desc['k']
+        claims = [Note('nontrivial', '')]
+        for tag, P in (('poly', Polynomial([[1, 'x']])), ('poly2', Polynomial([[2, 'x'], [3, 'x', 'y']])), ('rat', RationalPolynomial([[1, 'x']], [[1, 'y']]))):
+            q = P / k
+            back = q * k - P
+            iszero = (back == 0) and not bool(back)
+            if not iszero:
+                claims.append(Fail(f'div-int-exact[{tag}]', f'({P} / {k}) * {k} - ({P}) is {back!r}: == 0 is {back == 0}, bool is {bool(back)} (division by an integer multiplies by the float 1/{k})',
+                                   fkey='div-int|inexact-float-reciprocal'))
         return claims
     if kind == 'fork-poly':
         A = Polynomial([[V.var(f'a{i}'), *m] for i, m in enumerate(desc['A'])])
